@@ -282,7 +282,8 @@ impl UnixStr {
             return None;
         }
         let this_buf = &self.0;
-        let other_buf = &other.0[..other.0.len() - 2];
+        // Strip the null terminator (and nothing else) from the needle
+        let other_buf = &other.0[..other.0.len() - 1];
         buf_find(this_buf, other_buf)
     }
 
